@@ -348,10 +348,10 @@ pub fn run(args: &Args) -> Report {
         add(Scn { reqs: pool[..n].to_vec(), answers: vec![BindAnswer::Accept; n], order: (0..n).collect(), buf: 0, with_traffic: n == 2, both_sides: false, faults: false });
     }
     let plan = Plan {
-        ks: if thorough { vec![0, 1, 2] } else { vec![0, 1] },
+        ks: if thorough { vec![0, 1, 2, 3] } else { vec![0, 1, 2] },
         env: 0,
         fault: 1,
-        total_wall: Duration::from_secs(if thorough { 1500 } else { 35 }),
+        total_wall: Duration::from_secs(if thorough { 1500 } else { 25 }),
         max_execs_per_case: 500_000,
         required_witnesses: W_TRUE | W_FALSE | W_NEVER_PENDING | W_OUT_OF_ORDER | W_DISABLED | W_FAULT | W_QUEUE_FULL_WAIT,
         witness_names: &[("resolved_true", W_TRUE), ("resolved_false", W_FALSE), ("unanswered_stays_pending", W_NEVER_PENDING), ("answers_out_of_arrival_order", W_OUT_OF_ORDER), ("binds_disabled", W_DISABLED), ("connection_end_injected", W_FAULT), ("more_requests_than_bind_buffer", W_QUEUE_FULL_WAIT)],
